@@ -100,7 +100,8 @@ class Check(CheckBase):
             r = random.Random(f'C20/{self.seed}/c/{j}')
             cases.append({'kind': 'command', 'seed': r.randrange(1 << 30),
                           'command': ['snapshot+restore', 'upload-objects', 'download-objects'][j % 3],
-                          'limit': [2000, 16_000, 160_000, 1_000_000][j % 4], 'many_small': j % 2 == 0})
+                          'limit': [2000, 16_000, 160_000, 1_000_000][j % 4], 'many_small': j % 2 == 0,
+                          'flavour': 'async' if (j // 4) % 2 else 'sync'})
         return cases
 
     def worker_setup(self):
@@ -330,6 +331,36 @@ class Check(CheckBase):
                               'mechanism': None, 'witness': {'step': step, 'wrapper': repr(a)[:80], 'plain': repr(b)[:80],
                                                              'positions': (real.tell(), model.tell())}})
                     break
+            # an underlying stream that accepts fewer bytes than offered (raw files, pipes, sockets do): the caller resends the
+            # rest by the returned count, and what arrives is what was sent - nothing dropped, duplicated or reordered
+            class ShortSink:
+                def __init__(self, k):
+                    self.k, self.got = k, bytearray()
+
+                def write(self, data):
+                    n = min(len(data), r.randint(1, self.k)) if len(data) else 0
+                    self.got += bytes(data[:n])
+                    return n
+            if not v:
+                for k in (3, 700, 5000):
+                    sink = ShortSink(k)
+                    w2 = limiter.wrap(sink)
+                    payload = r.randbytes(r.choice([1, 50, 4000, 30_000]))
+                    view, guard = memoryview(payload), 0
+                    while len(view) and guard < 10 * len(payload) + 10:
+                        n = w2.write(view)
+                        ops_done += 1
+                        guard += 1
+                        if not isinstance(n, int) or n < 0 or n > len(view):
+                            v.append({'what': f'write through the limiter returned {n!r} for {len(view)} bytes offered', 'mechanism': None, 'witness': {'k': k}})
+                            break
+                        view = view[n:]
+                    if not v and bytes(sink.got) != payload:
+                        first = next((i for i, (a, b) in enumerate(zip(sink.got, payload)) if a != b), min(len(sink.got), len(payload)))
+                        v.append({'what': f'bytes written through the limiter to a stream with short writes arrive altered: {len(sink.got)} bytes for '
+                                          f'{len(payload)} sent, first difference at {first}', 'mechanism': None, 'witness': {'max_accepted_per_write': k}})
+                    if v:
+                        break
         finally:
             ru.time = orig
         return {'verdict': 'violated' if v else 'held', 'classes': ['transparent'], 'counters': {'transparency_ops': ops_done, 'programs': 1},
@@ -367,10 +398,31 @@ class Check(CheckBase):
                 for i in range(0, len(data), chunk_size):
                     n = stream.write(data[i:i + chunk_size])
                     log.append((clock.now, n, chunk_size))
+        class LoggingAMem(membackend.AsyncMemBackend, short_name='vfamemlog'):
+            """The same on a coroutine backend (S3 / B2 style): the commands then pace the streams on the event loop thread."""
+
+            async def upload_stream(self, name, stream, length, chunk_size=128_000):
+                parts = []
+                while True:
+                    piece = stream.read(chunk_size)
+                    log.append((clock.now, len(piece), chunk_size))
+                    if not piece:
+                        break
+                    parts.append(bytes(piece))
+                    await asyncio.sleep(0)
+                self.store.apply('upload_stream', name, b''.join(parts), None)
+
+            async def download_stream(self, name, stream, chunk_size=128_000):
+                data = self.store.objects[name]
+                stream.truncate(len(data))
+                for i in range(0, len(data), chunk_size):
+                    n = stream.write(data[i:i + chunk_size])
+                    log.append((clock.now, n, chunk_size))
+                    await asyncio.sleep(0)
         try:
             ru.time = clock
             store = membackend.Store(case['seed'])
-            be = LoggingMem(store)
+            be = (LoggingAMem if case.get('flavour') == 'async' else LoggingMem)(store)
             src = os.path.join(scratch, 'src')
             os.makedirs(src)
             total = 0
@@ -439,7 +491,7 @@ class Check(CheckBase):
         for name, entries in logs.items():
             events = [(t, n) for t, n, cs in entries if n]
             counters['events'] = counters.get('events', 0) + len(events)
-            classes.append(f'command|{name}|L{L}|{"many-small" if case["many_small"] else "few-large"}')
+            classes.append(f'command|{name}|L{L}|{"many-small" if case["many_small"] else "few-large"}|{case.get("flavour", "sync")}')
             if not events:
                 continue
             sizes = {cs for _, _, cs in entries}
